@@ -14,4 +14,4 @@ package buffer
 //@   ensures [one-consumer-accounted] b.consumersRemaining == old(b.consumersRemaining) - 1
 //@   ensures [chunk-size-only-shrinks] b.maximumChunkSizeBytes <= maximumChunkSizeBytes
 //@         && (old(b.maximumChunkSizeBytes) >= 0 ==> b.maximumChunkSizeBytes <= old(b.maximumChunkSizeBytes))
-//@   loop 0 invariant -1 <= rangeindex && held(addr(b.lock)) == 2 && unchanged(b.needsValidation) == unchanged(b.needsValidation)
+//@   loop 0 invariant -1 <= rangeindex && held(addr(b.lock)) == 2
